@@ -39,7 +39,8 @@ META = {
     "text": "TLC enumerates endpoint infos (address lists of every kind incl. relay URLs with query strings, IPv4/IPv6, custom "
             "addresses at the inline/heap and TXT-size boundaries, duplicates, up to 8 addresses; user data from every "
             "pattern of <= 3 runs over {plain, '=', space, comma, quote, newline, 2-byte char} stretched to 244/245/246 "
-            "bytes), publishes each as signed packet and as TXT strings, resolves it, and checks that the same address set "
+            "bytes; optionally through the relay_only / ip_only address filters), publishes each as signed packet and as TXT "
+            "strings, resolves it, and checks that the same address set "
             "and user data come back (and that the as-written split('=') variant does not).  Each behaviour is executed on "
             "the real API and the resolved id, address set and user data must equal the model's.",
     "note": "Weak reading: 'encodes successfully' = the constructors and to_pkarr_signed_packet return Ok; address order, TXT "
@@ -160,15 +161,15 @@ def concretise(ctx, idx, b):
             raise ToolError("model expects user data that is not the published one in case %d" % idx)
     else:
         exp_ud = None
-    case = {"case": idx, "via": b["via"], "secret": secret, "addrs": addrs, "ud": ud,
+    case = {"case": idx, "via": b["via"], "secret": secret, "addrs": addrs, "ud": ud, "filter": b.get("filter", "none"),
             "txt": txt if b["via"] == "foreign" else []}
     exp = {"st": out["st"], "why": out["why"], "addrs": exp_addrs, "ud": exp_ud, "txt": txt, "pktlen": b["pktlen"]}
     return case, exp
 
 
 def has_eq(b):
-    vals = [a["form"] for a in b["addrs"]] + ([b["ud"]["s"]] if b["ud"]["some"] else [])
-    return any(r["c"] == "=" for v in vals for r in v)
+    """Input class: some published value (the part after `key=`) contains "="."""
+    return any(r["c"] == "=" for t in b["txt"] for r in t[2:])
 
 
 def trunc(s):
@@ -177,7 +178,7 @@ def trunc(s):
 
 def judge(ctx, b, case, exp, o):
     """Compares one observation with the model's expectation."""
-    abstract = {"via": b["via"], "addrs": [a["tag"] for a in b["addrs"]],
+    abstract = {"via": b["via"], "addrs": [a["tag"] for a in b["addrs"]], "filter": b.get("filter", "none"),
                 "ud": [[r["c"], r["n"]] for r in b["ud"]["s"]] if b["ud"]["some"] else None,
                 "txt": [[[r["c"], r["n"]] for r in t] for t in b["txt"]] if b["via"] == "foreign" else None}
     ctx.count(case_key=abstract, nontrivial=bool(b["addrs"] or b["ud"]["some"] or b["via"] == "foreign"))
